@@ -3,7 +3,7 @@ import AbraModel.Drv.Util
 /- Driver for `assignDecision`: `assign <target> <captured 0|1> <op> <old> <rhs>`
    target ∈ {let,var,for,match,param,lamparam,elem,field,nonvar}; op ∈ {eq,add,sub,mul,div,mod};
    old/rhs integers or `-` (decision only).
-   answer: `accept <new value>` | `accept` | `accept err <kind>` | `diag immutable` | `diag notvar` | `crash` -/
+   answer: `accept <new value>` | `accept` | `accept err <kind>` | `diag immutable` | `diag notvar` | `diag captured` -/
 namespace Abra.Drv
 open Abra.Assign
 
@@ -36,6 +36,7 @@ def handleAssign : List String → String
         match assignDecision tgt op with
         | .diagImmutable => "diag immutable"
         | .diagNotVar => "diag notvar"
+        | .diagCaptured => "diag captured"
         | .crash => "crash"
         | .accept =>
           if old = "-" && rhs = "-" then "accept" else
